@@ -78,7 +78,12 @@ def report_obj(ro):
         items = s.items
         out.append('items=%d' % len(items))
         for i in items:
-            out += [';', X.s_tok(i.id), X.s_tok(i.slug), X.s_tok(i.type), X.s_tok(i.object_id), X.s_tok(i.mos_id), X.s_tok(i.note)]
+            out.append(';')
+            for f in (lambda: i.id, lambda: i.slug, lambda: i.type, lambda: i.object_id, lambda: i.mos_id, lambda: i.note):
+                try:
+                    out.append(X.s_tok(f()))
+                except Exception as e:
+                    out.append('E' + type(e).__name__)       # a raised exception is a value of the report
     return ' '.join(out)
 
 
